@@ -1,9 +1,12 @@
-\* C12, multipart/mixed AS THE CODE IS (a payload is encoded only inside aggregator.flush) with a payload
-\* that cannot be encoded: TLC must REFUTE NoCrash (the ticker goroutine's flush panics and nothing recovers
-\* it: known_findings.d/C12.json, mm:server-crash-unencodable-payload-in-ticker-flush); the driver also runs
-\* it with the remaining invariants (TypeOK MmFramed MmOrder MmNoEmpty MmComplete MmFailed NoGarbage), which
-\* must hold: in a request that survives, the stream is what MmFailed says.
-\* measured: counterexample of 4 states (Init, MMRecvAdd, MMTick, MMFlushTick), < 2 s; the other run 4,226 distinct / 7,575 generated states, depth 17.
+\* C12, multipart/mixed with a payload that cannot be encoded at any position.
+\* As registered (MmEncodeInAdd = TRUE, the code since a4760cc: encoded in Add on the handler goroutine, Done waits
+\* for the ticker goroutine) every invariant holds: the request fails (bytes flushed before, an ordinary boundary,
+\* the recovered panic's error object), the process does not, the ticker goroutine is gone when the handler returns.
+\* REGRESSION OF THE SPEC: the driver also runs it with MmEncodeInAdd = FALSE (the design before a4760cc: encoded
+\* only inside aggregator.flush) - TLC must then REFUTE NoCrash (MMRecvAdd, MMTick, MMFlushTick: the ticker
+\* goroutine's flush panics, nothing recovers it) and MmTickerStoppedAtReturn, while
+\* TypeOK MmFramed MmOrder MmNoEmpty MmComplete MmFailed NoGarbage still hold.
+\* measured: see notes/C12.md.
 INIT Init
 NEXT Next
 CONSTANTS
@@ -20,6 +23,6 @@ CONSTANTS
   FailSet = {0, 1, 2, 3}
   MaxReq = 1
   SharedBuf = FALSE
-  MmEncodeInAdd = FALSE
-INVARIANT NoCrash
+  MmEncodeInAdd = TRUE
+INVARIANTS TypeOK MmFramed MmOrder MmNoEmpty MmComplete MmFailed NoGarbage NoCrash MmTickerStoppedAtReturn
 CHECK_DEADLOCK FALSE
